@@ -4,7 +4,7 @@ import Splipy.Lemmas.C17Reindex
 /-! Lemmas for C17: `map_array` of a product, generically in the parametric dimension; the
 finite tables for sections (parametric dimension ≤ 3). -/
 
-namespace Splipy
+namespace Splipy.MP
 
 namespace Orientation
 
@@ -112,4 +112,4 @@ theorem mem_allSecs (n : ℕ) (s : Sec) : s ∈ allSecs n ↔ s.length = n := by
         refine ⟨e, ?_, t, (ih t).2 (by simpa using h), rfl⟩
         rcases e with _ | _ | _ <;> simp
 
-end Splipy
+end Splipy.MP
